@@ -6,6 +6,7 @@
 //	...noreg...     never register
 //	...syncfail...  fail the Synchronize request
 //	...dielater...  register, synchronize, then exit on the first event
+//	...dropidle...  a healthy plugin whose connection goes away while the runtime is idle; the process stays
 //	...stubborn...  a healthy plugin that does not exit when its connection is closed (syncfail behaves so, too)
 package main
 
@@ -66,6 +67,8 @@ func appendLine(name, line string) {
 	f.Close()
 }
 
+var theStub stub.Stub
+
 type plugin struct{}
 
 func (plugin) Configure(_ context.Context, config, runtime, version string) (api.EventMask, error) {
@@ -78,6 +81,15 @@ func (plugin) Synchronize(context.Context, []*api.PodSandbox, []*api.Container) 
 		return nil, fmt.Errorf("probe %s refuses to synchronize", base)
 	}
 	appendLine("synced.log", base)
+	if strings.Contains(base, "dropidle") {
+		// a while after a successful start, while the runtime is idle, the connection goes away; the
+		// process itself stays around
+		go func() {
+			time.Sleep(300 * time.Millisecond)
+			theStub.Stop()
+			appendLine("dropped.log", base)
+		}()
+	}
 	return nil, nil
 }
 
@@ -105,7 +117,7 @@ func main() {
 		os.Exit(8)
 	}
 	st, err := stub.New(plugin{}, stub.WithOnClose(func() {
-		if strings.Contains(base, "syncfail") || strings.Contains(base, "stubborn") {
+		if strings.Contains(base, "syncfail") || strings.Contains(base, "stubborn") || strings.Contains(base, "dropidle") {
 			// ignores the loss of its connection: only a kill gets rid of it
 			time.Sleep(120 * time.Second)
 		}
@@ -115,8 +127,9 @@ func main() {
 		appendLine("errors.log", base+": stub.New: "+err.Error())
 		os.Exit(9)
 	}
+	theStub = st
 	err = st.Run(context.Background())
-	if strings.Contains(base, "syncfail") || strings.Contains(base, "stubborn") {
+	if strings.Contains(base, "syncfail") || strings.Contains(base, "stubborn") || strings.Contains(base, "dropidle") {
 		time.Sleep(120 * time.Second) // does not go away on its own
 	}
 	if err != nil {
